@@ -57,13 +57,17 @@ CLAIMED["C15"] = dict(
     text="Lean theorems C15_build_reachable / C15_requests_reachable: in the circuit `build` produces from ANY well-formed builder "
          "state (hence for every request sequence, any length) every gate except the two constant gates reaches an output "
          "(mark phase = exactly the reachable set; compaction keeps exactly the marked gates; renumbering maps operands to "
-         "operands). PARTIAL: the clauses 'no AND gate has a constant/repeated operand', 'no duplicate AND gates with dedup on' "
-         "and the consequence for data-movement programs (0 AND gates) are stated (C15_and_normal_Statement, "
-         "C15_and_unique_Statement) but not yet proved; they are explored by scanning every circuit built from random request "
-         "sequences, the corpus and generated data-movement programs. Builder model tied to circuit.rs by structural correspondence.",
+         "operands). C15_and_normal: no AND gate of such a circuit has a constant operand or the same wire twice (the builder "
+         "never pushes one - optimize_and, and the AND-factoring rule of push_xor pairs an operand of an existing AND with a "
+         "fresh wire - and the renumbering of build is injective on referenced wires). C15_and_unique: with de-duplication on "
+         "no two AND gates have the same unordered pair of operands (every pushed AND is in the cache; push_and looks it up in "
+         "both orders first). All three for every request sequence of any length. PARTIAL: the consequence for data-movement "
+         "programs (0 AND gates) needs the language-level model and is explored by compiling generated copy / re-pack "
+         "programs; every circuit built on a run is also scanned for the three conditions. Builder model tied to circuit.rs "
+         "by structural correspondence.",
     design_ref="DESIGN.md §6 C15",
     note="trusted: as C04 (same builder model and correspondence); the scans are exploration, not proof",
-    technique="Lean 4 proof (reachability invariant of mark/compact/renumber) + structural correspondence + circuit scans",
+    technique="Lean 4 proof (builder invariants for AND normal form and uniqueness; reachability invariant of mark/compact/renumber) + structural correspondence + circuit scans",
 )
 
 CLAIMED["C03"] = dict(
@@ -74,8 +78,11 @@ CLAIMED["C03"] = dict(
          "remainder for every non-zero divisor), signed / and % (quotient rounded towards zero, remainder with the sign of the "
          "dividend, for every non-zero divisor except MIN / -1), < and > (unsigned, signed), == / !=, every cast (target width; "
          "congruent to the source value mod 2^k; no panic), and << / >> at 8/16/32/64 bits (overflow <=> amount >= width; "
-         "otherwise multiplication modulo 2^n / floor division by 2^amount, arithmetic on signed operands). PARTIAL: the "
-         "multiplication-by-literal rewrite (repeated checked addition) is not proved. All operators, all "
+         "otherwise multiplication modulo 2^n / floor division by 2^amount, arithmetic on signed operands), and multiplication "
+         "by a literal compiled as repeated checked addition (exact for unsigned operands and positive literals; for a "
+         "negative literal -n the flag is set exactly when n*x is not strictly inside (-2^(w-1), 2^(w-1)) - "
+         "C03_constMul_neg_finding states the recorded finding exactly: the flag is spurious only when the product is MIN). "
+         "All operators, all "
          "types, {var op var, var op const, const op var} and all casts are additionally checked by behavioural correspondence "
          "(compiled one-line programs vs the Lean Arith model) and against an independent Python big-integer oracle: all 2^16 "
          "operand pairs for u8/i8 arithmetic, boundary-directed and random operands for wider types.",
@@ -276,9 +283,10 @@ CLAIMED["C01"] = dict(
          "no panic, and variables whose wires encode the final source environment; if they fail it reports exactly that "
          "failure (first failing operation); the source semantics are never stuck on such a program (type soundness). The "
          "proof rests on the all-width correctness of the adder, subtractor, comparator, equality, negation and cast circuits "
-         "(Proofs/Arith*.lean, BitOps*.lean) and of the multiplier, divider and shifter. PARTIAL: the fragment excludes bitwise "
-         "operators on integers, multiplication by a literal (compiled as repeated addition), aggregates, match, loops, calls "
-         "and assignment through accessors; for those, and for the step from Bit.bitStmts to "
+         "(Proofs/Arith*.lean, BitOps*.lean) and of the multiplier, divider, shifter and the repeated addition used for "
+         "positive literal factors. PARTIAL: the fragment excludes bitwise operators on integers, multiplication by a "
+         "negative literal (where the recorded C03 finding lives), aggregates, match, loops, calls and assignment through "
+         "accessors; for those, and for the step from Bit.bitStmts to "
          "real gates, the property is explored: generated programs (the generator builds the syntax tree itself) are compiled "
          "as SSA and register circuit with and without de-duplication and compared with the Lean source semantics on 6 "
          "argument tuples each; programs of the fragment are additionally run through Bit.bitStmts, which must agree with the "
